@@ -15,11 +15,43 @@ type Text = proj.Text
 
 // Obj is the abstract state of one handle after a step: liveness, public projection, stored parameter list.
 type Obj struct {
-	Live bool         `json:"live"`
-	G    *proj.Proj   `json:"g,omitempty"`
-	P    [][]Text     `json:"p,omitempty"`   // parameter list (expected: spec list; observed: snapshot hook)
-	R    *proj.Record `json:"r,omitempty"`   // internal record (observed only; used by trace validation to resynchronise)
-	SPS  *Text        `json:"sps,omitempty"` // observed SearchParams.String() of the handle's list
+	Live  bool         `json:"live"`
+	G     *proj.Proj   `json:"g,omitempty"`
+	P     [][]Text     `json:"p,omitempty"`     // parameter list (expected: spec list; observed: snapshot hook)
+	R     *proj.Record `json:"r,omitempty"`     // internal record (observed only; used by trace validation to resynchronise)
+	SPS   *Text        `json:"sps,omitempty"`   // observed SearchParams.String() of the handle's list
+	RT    *Reparse     `json:"rt,omitempty"`    // expected / observed result of re-parsing the serialization (C03)
+	Law   *Law         `json:"law,omitempty"`   // expected codec law (C11)
+	Alias bool         `json:"alias,omitempty"` // observed: the handle's SearchParams object writes through to another URL (C13)
+}
+
+// Law is the codec law of C11 at one state: does parse(serialize(list)) give the list back; Delims is the
+// specification's characterisation of finding F03 (a delimiter character in a name or value).
+type Law struct {
+	Faithful bool `json:"faithful"`
+	Delims   bool `json:"delims"`
+}
+
+// Reparse is the result of parsing a URL's own serialization with no base.
+type Reparse struct {
+	Same bool       `json:"same"`
+	Fail bool       `json:"fail"`
+	G    *proj.Proj `json:"g,omitempty"`
+}
+
+// DoReparse parses href with the default parser and reports the outcome relative to g.
+func DoReparse(p url.Parser, g *proj.Proj) (rt Reparse, errc string) {
+	defer func() {
+		if r := recover(); r != nil {
+			rt.Fail, errc = true, fmt.Sprintf("panic: %v", r)
+		}
+	}()
+	u, err := p.Parse(g.Href.ToGo())
+	if err != nil || u == nil {
+		return Reparse{Fail: true}, ""
+	}
+	g2 := proj.Project(u)
+	return Reparse{Same: len(proj.Diff(*g, g2, nil)) == 0, G: &g2}, ""
 }
 
 // Step is one action with its expectation (replay) or observation (record).
@@ -204,6 +236,7 @@ func (m *Machine) Observe(full bool) []Obj {
 			if full {
 				o.R = &r
 			}
+			o.Alias = r.HasSP && !r.OwnSP
 		}
 		out[h-1] = o
 	}
